@@ -143,6 +143,88 @@ def oracle(kind, args, out, eps):
         chk("A*B affine part", ABp, ap(Al, Ap, Bp))
         chk("rcp(A)(A(p)) = p", ap(Rl, Rp, ap(Al, Ap, [1.0, -2.0])), [1.0, -2.0], k)
         chk("rcp(A).l = inverse(A.l)", flat(Rl), flat(inv(Al)), k)
+    elif kind in ("ol2", "ol3"):
+        n = 2 if kind == "ol2" else 3
+        A = cols(args[0:n * n], n); B = cols(args[n * n:2 * n * n], n); k = cond(B); nn = n * n
+        AB = flat(mm(A, B)); AoB = flat(mm(A, inv(B)))
+        chk("+a = a", out[0:nn], flat(A))
+        chk("a / b = a * inverse(b)", out[nn:2 * nn], AoB, k)
+        chk("(a / b) * b = a", flat(mm(cols(out[nn:2 * nn], n), B)), flat(A), k)
+        chk("a *= b stores a * b", out[2 * nn:3 * nn], AB)
+        chk("a *= b returns a * b", out[3 * nn:4 * nn], AB)
+        chk("a /= b stores a / b", out[4 * nn:5 * nn], AoB, k)
+        chk("a /= b returns a / b", out[5 * nn:6 * nn], AoB, k)
+        chk("a == b, a != b, a == a, a != a", out[6 * nn:6 * nn + 4], [1.0 if A == B else 0.0, 0.0 if A == B else 1.0, 1.0, 0.0])
+        o = 6 * nn + 4
+        chk("LinearSpace(zero)", out[o:o + nn], [0.0] * nn)
+        chk("LinearSpace(one)", out[o + nn:o + 2 * nn], flat(ident(n)))
+        if n == 3:
+            chk("clamp(a) = entrywise clamp to [-1, 1]", out[o + 2 * nn:o + 3 * nn], [max(min(x, 1.0), -1.0) for x in flat(A)])
+    elif kind == "oa3":
+        Al, Ap = cols(args[0:9], 3), args[9:12]; Bl, Bp = cols(args[12:21], 3), args[21:24]; sc = args[24]
+        k = cond(Bl) * (1.0 + norm(Bp))
+        ap = lambda L, t, x: [a + b for a, b in zip(mv(L, x), t)]
+        AB = flat(mm(Al, Bl)) + ap(Al, Ap, Bp)
+        Bi = inv(Bl); Rp = [-x for x in mv(Bi, Bp)]
+        AoB = flat(mm(Al, Bi)) + ap(Al, Ap, Rp)
+        A = flat(Al) + Ap; B = flat(Bl) + Bp
+        seg = lambda i: out[12 * i:12 * i + 12]
+        chk("-a", seg(0), [-x for x in A]); chk("+a", seg(1), A)
+        chk("a + b", seg(2), [x + y for x, y in zip(A, B)]); chk("a - b", seg(3), [x - y for x, y in zip(A, B)])
+        chk("s * a", seg(4), [sc * x for x in A])
+        chk("a / b = a * rcp(b)", seg(5), AoB, k)
+        chk("a *= b stores a * b = (a.l*b.l, a.l*b.p + a.p)", seg(6), AB)
+        chk("a *= b returns a * b", seg(7), AB)
+        probe = [1.0, -2.0, 3.0]
+        chk("(a *= b)(x) = a(b(x))", ap(cols(seg(6)[0:9], 3), seg(6)[9:12], probe), ap(Al, Ap, ap(Bl, Bp, probe)))
+        chk("a /= b stores a / b", seg(8), AoB, k); chk("a /= b returns a / b", seg(9), AoB, k)
+        chk("(a /= b) * b = a", flat(mm(cols(seg(8)[0:9], 3), Bl)) + ap(cols(seg(8)[0:9], 3), seg(8)[9:12], Bp), A, k)
+        chk("c = a stores a", seg(10), A); chk("c = a returns a", seg(11), A)
+        chk("a == b, a != b, a == a, a != a", out[144:148], [1.0 if A == B else 0.0, 0.0 if A == B else 1.0, 1.0, 0.0])
+        chk("AffineSpace(zero)", out[148:160], [0.0] * 12); chk("AffineSpace(one)", out[160:172], flat(ident(3)) + [0.0] * 3)
+        chk("AffineSpace(vx,vy,vz,p)", out[172:184], A)
+    elif kind == "oa2":
+        Al, Ap = cols(args[0:4], 2), args[4:6]; Bl, Bp = cols(args[6:10], 2), args[10:12]
+        AB = flat(mm(Al, Bl)) + [a + b for a, b in zip(mv(Al, Bp), Ap)]
+        chk("a *= b stores a * b (2D)", out[0:6], AB); chk("a *= b returns a * b (2D)", out[6:12], AB)
+    elif kind == "oq":
+        a, b, sc, v = args[0:4], args[4:8], args[8], args[9:12]
+        seg = lambda i: out[4 * i:4 * i + 4]
+        nb = dot(b, b); na = dot(a, a)
+        rcpq = lambda q: [q[0] / dot(q, q)] + [-x / dot(q, q) for x in q[1:]]
+        chk("Quaternion(s)", seg(0), [sc, 0, 0, 0]); chk("Quaternion(zero)", seg(1), [0.0] * 4); chk("Quaternion(one)", seg(2), [1.0, 0, 0, 0])
+        exp = [("+= s", [a[0] + sc] + a[1:]), ("+= b", [x + y for x, y in zip(a, b)]), ("-= s", [a[0] - sc] + a[1:]),
+               ("-= b", [x - y for x, y in zip(a, b)]), ("*= s", [x * sc for x in a]), ("*= b", qmulp(a, b)),
+               ("/= s", [x / sc for x in a]), ("/= b", qmulp(a, rcpq(b)))]
+        for n_, (nm, e) in enumerate(exp):
+            chk("a %s stores the binary result" % nm, seg(3 + 2 * n_), e); chk("a %s returns the binary result" % nm, seg(4 + 2 * n_), e)
+        chk("(a /= b) * b = a", qmulp(seg(17), b), a)
+        chk("s + a", seg(19), [sc + a[0]] + a[1:]); chk("a + s", seg(20), [a[0] + sc] + a[1:])
+        chk("s - a", seg(21), [sc - a[0]] + [-x for x in a[1:]]); chk("a - s", seg(22), [a[0] - sc] + a[1:])
+        chk("s / a = s * rcp(a)", seg(23), [sc * x for x in rcpq(a)]); chk("a / s", seg(24), [x / sc for x in a])
+        chk("a / b = a * rcp(b)", seg(25), qmulp(a, rcpq(b))); chk("+a", seg(26), a)
+        chk("a == b, a != b, a == a, a != a", out[108:112], [1.0 if a == b else 0.0, 0.0 if a == b else 1.0, 1.0, 0.0])
+        chk("xfmQuaternion(a,b) = a * b", out[112:116], qmulp(a, b))
+        chk("xfmNormal(a,v) = a * v", out[116:119], [na * x for x in mv(qmat([x / math.sqrt(na) for x in a]), v)])
+        chk("abs(a) = sqrt(dot(a,a))", out[119:120], [math.sqrt(na)])
+        if len(out) > 120:
+            f = f32(sc)
+            chk("quaterniond * float", out[120:124], [x * f for x in a]); chk("float * quaterniond", out[124:128], [f * x for x in a])
+    elif kind == "ocv":
+        e = args[0:12]; L9, P3 = e[0:9], e[9:12]
+        o = 0
+        chk("LinearSpace3<vec3f>(LinearSpace3<vec3fa>(m)) = m", out[0:9], L9)
+        chk("AffineSpace<vec3f>(AffineSpace<vec3fa>(a)) = a", out[9:21], e)
+        chk("LinearSpace2<vec2f>(LinearSpace2<vec2d>(m)) = m", out[21:25], e[0:4])
+        chk("operator L*() views the linear part", out[25:34], L9); chk("operator const L*() const views the linear part", out[34:43], L9)
+        chk("== is false / != is true against every single-entry perturbation (L3 9, A3 12, L2 4, Q 4)", out[43:51], [0, 9, 0, 12, 0, 4, 0, 4])
+        chk("operator<<(AffineSpace3f) prints l.vx l.vy l.vz p", out[51:63], e)
+        chk("operator<<(LinearSpace3f)", out[63:72], L9); chk("operator<<(LinearSpace2f)", out[72:76], e[0:4])
+        chk("operator<<(AffineSpace2f)", out[76:82], e[0:6]); chk("operator<<(quaternionf) prints r i j k", out[82:86], e[0:4])
+        r_, i_, j_, k_ = e[0:4]
+        M = [r_*r_ + i_*i_ - j_*j_ - k_*k_, 2*(i_*j_ + r_*k_), 2*(i_*k_ - r_*j_), 2*(i_*j_ - r_*k_), r_*r_ - i_*i_ + j_*j_ - k_*k_, 2*(j_*k_ + r_*i_),
+             2*(i_*k_ + r_*j_), 2*(j_*k_ - r_*i_), r_*r_ - i_*i_ - j_*j_ + k_*k_]
+        chk("AffineSpace::rotate(q) = (LinearSpace3(q), 0)", out[86:98], M + [0.0, 0.0, 0.0])
     elif kind == "o2":
         # closest orthogonal matrix = orthogonal polar factor, in closed form for 2x2:
         # det > 0: the rotation (M + cof M)/|.|; det < 0: mirror the first column, take the rotation, mirror it back
@@ -270,6 +352,10 @@ def oracle(kind, args, out, eps):
 
 def kappa_of(kind, args):
     if kind in ("l2", "o2"): return cond(cols(args[0:4], 2))
+    if kind == "ol2": return cond(cols(args[4:8], 2))
+    if kind == "ol3": return cond(cols(args[9:18], 3))
+    if kind == "oa3": return cond(cols(args[12:21], 3)) * 4.0
+    if kind == "oq": return 8.0
     if kind == "l3": return cond(cols(args[0:9], 3))
     if kind == "a3": return cond(cols(args[0:9], 3))
     if kind == "a2": return cond(cols(args[0:4], 2))
@@ -340,6 +426,21 @@ def make_cases(ctx):
         cases.append(("a3", gen_real_matrix(r, 3) + gen_vec(r, 3, False) + gen_real_matrix(r, 3) + gen_vec(r, 3, False) + gen_vec(r, 3, False), False))
         cases.append(("a2", gen_real_matrix(r, 2) + gen_vec(r, 2, False) + gen_real_matrix(r, 2) + gen_vec(r, 2, False), False))
         cases.append(("r2", [f32(r.uniform(-2 * math.pi, 2 * math.pi))] + gen_vec(r, 2, False), False))
+    # the remaining operators: compound assignment, division, unary, scalar forms, comparisons, constants.  B always has a
+    # non-trivial linear part AND a translation; all entries pairwise distinct
+    for it in range(ctx.pick(60, 600)):
+        integer = (it % 2 == 0)
+        gm = gen_int_matrix if integer else gen_real_matrix
+        cases.append(("ol2", gm(r, 2) + gm(r, 2), integer))
+        cases.append(("ol3", [x * (0.25 if not integer and it % 4 == 1 else 1.0) for x in gm(r, 3)] + gm(r, 3), integer))
+        cases.append(("oa3", gm(r, 3) + gen_vec(r, 3, integer) + gm(r, 3) + gen_vec(r, 3, integer) + [float(r.choice([-3, -2, 2, 3, 5])) if integer else grid(r, -3, 3) or 1.5], integer))
+        cases.append(("oa2", gm(r, 2) + gen_vec(r, 2, integer) + gm(r, 2) + gen_vec(r, 2, integer), integer))
+        qa = [float(x) for x in r.sample(range(-5, 6), 4)] if integer else [grid(r, -3, 3) for _ in range(4)]
+        qb = [float(x) for x in r.sample(range(-5, 6), 4)] if integer else [grid(r, -3, 3) for _ in range(4)]
+        if dot(qa, qa) < 1 or dot(qb, qb) < 1 or len(set(qa)) < 4 or len(set(qb)) < 4: continue
+        cases.append(("oq", qa + qb + [float(r.choice([-3, -2, 2, 3, 5])) if integer else (grid(r, 0.5, 3) * r.choice([-1, 1]))] + gen_vec(r, 3, integer), integer))
+        if integer:
+            cases.append(("ocv", [float(x) for x in r.sample(range(-9, 10), 12)], True))
     # orthogonal(): M = R(a) diag(s1,s2) R(b), half of them times a reflection (det < 0: the mirror wrapper), plus pure
     # rotations / reflections (fixed points); condition <= 64, pairwise distinct entries
     def R2(t): return [[math.cos(t), math.sin(t)], [-math.sin(t), math.cos(t)]]
@@ -385,9 +486,9 @@ def make_cases(ctx):
     return cases
 
 
-KINDS = {"f": {"o2", "l2", "r2", "a2", "l3", "a3", "rot", "frm", "look", "q", "qf", "qr", "ypr", "sl"},
-         "fa": {"l3", "a3", "rot", "frm", "look"},
-         "d": {"o2", "q", "qf", "qr", "ypr", "sl"}}
+KINDS = {"f": {"ol2", "oa2", "ol3", "oa3", "oq", "ocv", "o2", "l2", "r2", "a2", "l3", "a3", "rot", "frm", "look", "q", "qf", "qr", "ypr", "sl"},
+         "fa": {"ol3", "oa3", "l3", "a3", "rot", "frm", "look"},
+         "d": {"oq", "o2", "q", "qf", "qr", "ypr", "sl"}}
 
 
 def parse_out(line, kind):
@@ -419,34 +520,84 @@ def compare(kind, impl, ref, tol):
     return wi, worst, scale
 
 
+PROP_FILES = ("PropertiesLin.v", "PropertiesRot.v", "PropertiesQuat.v", "PropertiesBranch.v", "PropertiesSlerp.v", "PropertiesFrame.v",
+              "PropertiesOrtho.v", "PropertiesOps.v", "PropertiesNonvac.v", "PropertiesConv.v")
+
+EXPECTED_UNSUPPORTED = {
+    "LinearSpace2_orthogonal__": "a loop: hand-modelled in coq/C06/Ortho.v",
+    "AffineSpaceT_LinearSpace3_v3f_conv_p__": "operator L*(): pointer result, outside the numeric subset (harness kind ocv)",
+    "AffineSpaceT_LinearSpace3_v3f_conv_p___2": "operator const L*() const: pointer result (harness kind ocv)",
+    "op_shl__x_AffineSpaceT_LinearSpace2_v2f": "operator<<: stream output (harness kind ocv)",
+    "op_shl__x_AffineSpaceT_LinearSpace3_v3f": "operator<<: stream output (harness kind ocv)",
+    "op_shl__x_LinearSpace2": "operator<<: stream output (harness kind ocv)",
+    "op_shl__x_LinearSpace3": "operator<<: stream output (harness kind ocv)",
+    "op_shl__x_QuaternionT_f": "operator<<: stream output (harness kind ocv)",
+    "op_shl__x_v2f": "vec operator<< (callee of the above)", "op_shl__x_v3f": "vec operator<< (callee of the above)",
+}
+
+
 def regenerate(ctx):
-    gen = os.path.join(ctx.coqdir, "gen", "GenLin.v")
-    tmp = os.path.join(ctx.build, "GenLin.new.v")
     ctx.include_dir()
     tool = os.path.join(ctx.verif, "tools", "cxx2coq", "cxx2coq.py")
-    tu = os.path.join(ctx.verif, "tools", "cxx2coq", "inst", "lin.cpp")
-    rc, o = vlib.sh(["python3", tool, tu, tmp, "--repo", ctx.repo, "-D", "RKCOMMON_NO_SIMD"], timeout=600)
-    if rc != 0 or not os.path.exists(tmp):
-        ctx.log("cxx2coq failed:\n" + o[-2000:])
-        ctx.broken.append("regeneration of gen/GenLin.v from the working tree (cxx2coq/clang failed)")
-        return
-    txt = open(tmp).read()
-    uns = re.findall(r"\(\* UNSUPPORTED (\S+):", txt)
-    ctx.cov["cxx2coq"] = {"translated_definitions": len(re.findall(r"^Definition ", txt, re.M)), "unsupported": uns}
-    if uns:
-        ctx.log("cxx2coq: unsupported: " + ", ".join(uns))
-    for u in uns:
-        if u != "LinearSpace2_orthogonal__":      # the loop: hand-modelled in coq/C06/Ortho.v
-            ctx.broken.append("cxx2coq no longer translates %s (model incomplete)" % u)
-    if not os.path.exists(gen) or open(gen).read() != txt:
-        ctx.log("gen/GenLin.v changed: theorems are re-checked against the regenerated definitions")
-        shutil.copy(tmp, gen)
-    os.remove(tmp)
+    jsons = []
+    for (tu, out, extra) in (("lin.cpp", "GenLin.v", []), ("linconv.cpp", "GenConv.v", ["--only", "v3af|v2d"])):
+        gen = os.path.join(ctx.coqdir, "gen", out)
+        tmp = os.path.join(ctx.build, out[:-2] + ".new.v")
+        js = os.path.join(ctx.build, out[:-2] + ".ast.json")
+        src = os.path.join(ctx.verif, "tools", "cxx2coq", "inst", tu)
+        rc, o = vlib.sh(["python3", tool, src, tmp, "--repo", ctx.repo, "-D", "RKCOMMON_NO_SIMD", "--json", js] + extra, timeout=600)
+        if rc != 0 or not os.path.exists(tmp):
+            ctx.log("cxx2coq failed on %s:\n%s" % (tu, o[-2000:]))
+            ctx.broken.append("regeneration of gen/%s from the working tree (cxx2coq/clang failed)" % out)
+            continue
+        jsons.append(js)
+        txt = open(tmp).read()
+        uns = re.findall(r"\(\* UNSUPPORTED (\S+):", txt)
+        ctx.cov.setdefault("cxx2coq", {})[tu] = {"translated_definitions": len(re.findall(r"^Definition ", txt, re.M)), "unsupported_expected": uns}
+        for u in uns:
+            if u not in EXPECTED_UNSUPPORTED:
+                ctx.broken.append("cxx2coq no longer translates %s (model incomplete)" % u)
+        if not os.path.exists(gen) or open(gen).read() != txt:
+            ctx.log("gen/%s changed: theorems are re-checked against the regenerated definitions" % out)
+            shutil.copy(tmp, gen)
+        os.remove(tmp)
+    declared_scan(ctx, jsons)
+
+
+def declared_scan(ctx, jsons):
+    """every function/operator/constructor/conversion the three headers declare must be covered or explicitly excluded"""
+    sys.path.insert(0, os.path.join(ctx.verif, "tools", "cxx2coq"))
+    sys.path.insert(0, os.path.dirname(os.path.abspath(__file__)))
+    import importlib, opscan, coverage
+    importlib.reload(coverage)
+    from astutil import load_docs
+    sys.setrecursionlimit(20000)
+    inst, line = {}, {}
+    for js in jsons:
+        try:
+            for k, d in opscan.scan(load_docs(js)).items():
+                inst[k] = inst.get(k, 0) + d["inst"]; line[k] = d["line"]
+        finally:
+            try: os.remove(js)
+            except OSError: pass
+    unknown = [k for k in inst if k not in coverage.COVER and k not in coverage.EXCLUDE]
+    dead = [k for k in coverage.COVER if k in inst and inst[k] == 0]
+    gone = [k for k in list(coverage.COVER) + list(coverage.EXCLUDE) if k not in inst]
+    used_kinds = set(re.findall(r"\b([a-z]+[0-9]?[a-z]*)\b", " ".join(coverage.COVER.values())))
+    for k in unknown:
+        ctx.broken.append("declared in the headers (line %s) but neither covered nor excluded in props/C06/coverage.py: %s" % (line[k], k))
+    for k in dead:
+        ctx.broken.append("covered declaration is no longer instantiated by tools/cxx2coq/inst/*.cpp: %s" % k)
+    ctx.cov["declarations"] = {"declared": len(inst), "covered": len([k for k in inst if k in coverage.COVER]),
+                               "excluded": {k: coverage.EXCLUDE[k] for k in inst if k in coverage.EXCLUDE},
+                               "unknown": unknown, "not_instantiated": dead, "listed_but_no_longer_declared": gone}
+    if not jsons:
+        ctx.broken.append("declaration scan did not run")
 
 
 def run(ctx):
     regenerate(ctx)
-    ctx.coq_check(("Properties.v",))
+    ctx.coq_check(PROP_FILES)
     model = ctx.extract(snippets=["conv_N.ml", "conv_Z.ml"])
     exe = ctx.cxx(["harness.cpp"], "harness", sanitize=None)
     if not model or not exe:
@@ -472,8 +623,8 @@ def run(ctx):
             return
         impl[fl] = res
     # model readings
-    mq = {"f": runall(model, ["q", "f"], lambda c: c[2] and c[0] in ("l2", "l3", "a2", "a3", "q"))[1],
-          "d": runall(model, ["q", "d"], lambda c: c[2] and c[0] == "q")[1]}
+    mq = {"f": runall(model, ["q", "f"], lambda c: c[2] and c[0] in ("l2", "l3", "a2", "a3", "q", "ol2", "oa2", "ol3", "oa3", "oq"))[1],
+          "d": runall(model, ["q", "d"], lambda c: c[2] and c[0] in ("q", "oq"))[1]}
     mf = {"f": runall(model, ["f", "f"], lambda c: True)[1], "d": runall(model, ["f", "d"], lambda c: c[0] in KINDS["d"] and c[0] != "o2")[1]}
     # LinearSpace2<vec2d>::orthogonal(): the float model read without rounding to binary32 is the double computation
     mf["d"].update(runall(model, ["d", "d"], lambda c: c[0] == "o2")[1])
@@ -569,4 +720,4 @@ def run(ctx):
                         "LinearSpace2::orthogonal() contains a loop: hand model coq/C06/Ortho.v (control flow mirrored by hand, every callee regenerated); proved: fixed point orthogonal, det sign kept, polar form Q*S kept with the same Q, mirror wrapper; convergence of the iteration (that it stops near the fixed point) is checked numerically only",
                         "a default-constructed object is modelled with 0 in its (indeterminate) fields; the translated code assigns every field before reading it"]
     if ctx.thorough():
-        ctx.coq_thorough_chk(["C06.Properties"])
+        ctx.coq_thorough_chk(["C06." + f[:-2] for f in PROP_FILES])
